@@ -529,7 +529,7 @@ def part_counting(ctx, o):
         hit = P.lookup(c, '_get_part_count')
         o.count()
         ok = bool(cf) and not (hit and hit[1] == 'method' and '_get_part_count' not in cf)
-        o.stats['count_functions'] = {k: [c_.name for c_, _ in v] for k, v in cf.items()}
+        o.stats['count_functions'] = {k: [c_.name if c_ is not None else '<module>' for c_, _ in v] for k, v in cf.items()}
         if ok:
             pass
         elif hit and hit[1] == 'method':
